@@ -90,6 +90,12 @@ class CheckRun:
     def validate(self, trace_module, traces, cfg_text, name, key=None, nontrivial=None, diag_cfg=None):
         """Validate; returns list of rejected traces (each gets 'expected' if diag_cfg is given)."""
         self.check_harness(traces)
+        aborted = [t for t in traces if isinstance(t, dict) and t.get("abort")]
+        if aborted:
+            # the interpreter died (signal) while the library executed this case: no result, no clean exception
+            for t in aborted[:20]:
+                self.violations.append({"abort": True, "what": "the Python process was killed by a signal while executing this call", "case": t.get("case")})
+            traces = [t for t in traces if not (isinstance(t, dict) and (t.get("abort") or t.get("skipped_after_aborts")))]
         self.evaluations += len(traces)
         acc, _, st = tlc.validate(trace_module, traces, f"{self.pid}_{name}", cfg_text)
         self.timing.append(("validate:" + name, len(traces), round(st["wall"], 1)))
